@@ -17,5 +17,5 @@ CONSTANTS
   LastC = {}
   Design = "append"
 INVARIANTS Inv_C11 Inv_Wf
-PROPERTIES Act_Current Act_Frame Act_Flags Act_Survive
+PROPERTIES Act_Current Act_Frame Act_Flags Act_Survive Act_Names
 CHECK_DEADLOCK FALSE
